@@ -18,12 +18,9 @@ def datable_ts(rng, historical=None, internal=False, big=False, ploidy=1):
             continue
         if internal:
             ts = gen.internal_samples(rng, ts, k=rng.randint(1, 2))
-        if rng.random() < 0.25:
-            ts = gen.extra_flags(rng, ts)   # flag bits beyond NODE_IS_SAMPLE
-        if rng.random() < 0.25:
-            ts = gen.add_root_mutations(rng, ts)  # mutations above a local root (on no edge)
-        if rng.random() < 0.25:
-            ts = gen.permute_nodes(rng, ts)  # samples need not be nodes 0..n-1
+        # valid-but-unusual decorations (extra flag bits, renumbered nodes, mutations above roots,
+        # mutation-free sites, unknown mutation times, allele states, populations)
+        ts, _applied = gen.exotic(rng, ts, p=0.2)
         return ts
     raise RuntimeError("no datable input generated")
 
